@@ -162,7 +162,14 @@ fn run_history(prog: &Value, hotcold: bool, out: Option<&mut Out>, sc: &str) -> 
             }
             "config" => scn::guard(|| {
                 let mut r = p.open(proc_)?;
-                r.apply_config(&rustic_core::ConfigOptions::default().set_compression(st["compression"].as_i64().unwrap_or(1) as i32)).map(|_| ())
+                let mut o = rustic_core::ConfigOptions::default();
+                if let Some(c) = st.get("compression").and_then(Value::as_i64) {
+                    o = o.set_compression(c as i32);
+                }
+                if let Some(a) = st.get("append_only").and_then(Value::as_bool) {
+                    o = o.set_append_only(a);
+                }
+                r.apply_config(&o).map(|_| ())
             }),
             "repair_index" => scn::guard(|| {
                 p.open(proc_)?.repair_index(&rustic_core::RepairIndexOptions::default().read_all(st.get("read_all").and_then(Value::as_bool).unwrap_or(false)), false)
@@ -255,6 +262,22 @@ fn run_history(prog: &Value, hotcold: bool, out: Option<&mut Out>, sc: &str) -> 
             flush(&mut p, &mut nm, o, sc);
         }
         emit(json!({"e":"end","sc":sc,"proc":proc_,"cmd":cmd,"res":res.class(),"msg":res.msg()}), &mut sink);
+        // what a freshly opened handle sees as the configuration (the hot flag apart) - the same on a single store
+        if matches!(cmd, "config" | "repair_hotcold") || i == 0 {
+            let view = match scn::guard(|| p.open(proc_ + 500).map(|r| serde_json::to_value(r.config()).unwrap_or(Value::Null))) {
+                Outcome::Ok(mut v) => {
+                    if let Some(m) = v.as_object_mut() {
+                        // the hot flag, and what init draws at random
+                        for k in ["is_hot", "id", "chunker_polynomial"] {
+                            _ = m.remove(k);
+                        }
+                    }
+                    v
+                }
+                x => json!(x.class()),
+            };
+            _ = rest.insert("config_seen".into(), view);
+        }
         results.push(json!({"cmd":cmd,"res":res.class(),"rest":rest}));
     }
     results
